@@ -105,8 +105,11 @@ def post(cfg, inp, ob):
 
 
 CANARIES = [
-    dict(name='product of wide operands computed in int64 (raw_cast threshold raised)',
-         mutate={'functions.py': [('raw_cast = (lambda m: np.array(m, dtype=object)) if (x.n_word + y.n_word) >= _n_word_max else (lambda m: m)',
-                                   'raw_cast = (lambda m: np.array(m, dtype=object)) if (x.n_word + y.n_word) >= 2*_n_word_max else (lambda m: m)')]},
+    dict(name='exact-integer cast of the raw operands chosen one power of two too late (int64 used up to 127 bits)',
+         mutate={'functions.py': [('    if n_bits >= _n_word_max:\n        return lambda m: np.array(m, dtype=object)',
+                                   '    if n_bits >= 2*_n_word_max:\n        return lambda m: np.array(m, dtype=object)')]},
          cfgs=[dict(part='arith', op='mul', x=[True, 40, 0], y=[True, 40, 20], route='operator', shape=[])]),
+    dict(name='set_val decides the python-integer regime on the unscaled value only',
+         mutate={'objects.py': [('                _val_lim = _val_lim // conv_factor', '                _val_lim = _val_lim')]},
+         cfgs=[dict(part='store', signed=True, n_word=8, n_frac=2, rounding='trunc', overflow='saturate', entry='set_val')]),
 ]
